@@ -1036,7 +1036,111 @@ def r11(F, rep):
     mult_offset(F, rep, "C03-R11")
 
 
+def r12(F, rep):
+    rep.rule("C03-R12", "the state describes one instant: a value that a bias writes under a key (helper called with the key and a "
+                        "member) is read back under that key into the same member; where the writer serialises a copy instead "
+                        "(`S = A` in the class), the copy is taken after the last update of every other member the writer "
+                        "serialises -- otherwise the saved kernels and sums belong to one moment of the step and the saved "
+                        "counters to another, and the resumed run (which skips the update of the repeated step) never catches up")
+    import re
+    from .rules_c10 import lvalue_writes, member_root
+    cg = callgraph.get(F)
+    wnames = ("get_state_params", "write_state_data", "write_state")
+    rnames = ("set_state_params", "read_state_data", "read_state")
+    w_ok = lambda n: n.startswith("write_state") or n.startswith("get_state") or n in ("write_hill", "write_raw")
+    r_ok = lambda n: n.startswith("read_state") or n.startswith("set_state") or n in ("read_hill", "read_raw", "check_matching_state")
+
+    def pairs(g):
+        out = []
+        for c in g.walk():
+            if c["k"] not in ("CallExpr", "CXXMemberCallExpr", "CXXOperatorCallExpr"):
+                continue
+            lits, mems = [], []
+            for a in X.call_args(c):
+                ka = X.key(a, g)
+                if re.match(r"^'[^']*'$", ka):
+                    lits.append(ka)
+                elif X.strip(a)["k"] == "MemberExpr" and ka.startswith("this.") and ka.count(".") == 1:
+                    mems.append((X.strip(a)["q"], c))
+            if len(lits) == 1 and len(mems) == 1:
+                out.append((lits[0], mems[0][0], mems[0][1], g))
+        return out
+    n = 0
+    for cq in sorted(concrete_biases(F)):
+        wf = family_closure(F, cq, wnames, w_ok)
+        rf = family_closure(F, cq, rnames, r_ok)
+        Wp, Rp = {}, {}
+        for g in wf:
+            for k, m, c, gg in pairs(g):
+                Wp.setdefault(k, (m, c, gg))
+        for g in rf:
+            for k, m, c, gg in pairs(g):
+                Rp.setdefault(k, (m, c, gg))
+        common = sorted(set(Wp) & set(Rp))
+        if not common:
+            continue
+        W = set().union(*[fields_read(g, skip_conditions=True) for g in wf])
+        roots, reach, follow = update_reach(F, cg, cq)
+        for k in common:
+            (mw, cw, gw), (mr, cr, gr) = Wp[k], Rp[k]
+            n += 1
+            if mw == mr:
+                rep.add("C03-R12", "%s|%s" % (cq, k), gw.loc(cw), "%s: key %s is written from and read into `%s`" % (cq, k, mw.split("::")[-1]), True, func=gw.q)
+                continue
+            # is mw a copy of mr taken on the update path?
+            sites = []
+            for m in reach:
+                f = F.funcs.get(m)
+                if f is None or f.body is None:
+                    continue
+                for w, tgt in lvalue_writes(f):
+                    t = member_root(tgt)
+                    if t is None or t["q"] != mw or w.get("op") != "=":
+                        continue
+                    rhs = X.kids(w)[1] if w["k"] == "BinaryOperator" else (X.call_args(w)[1] if len(X.call_args(w)) > 1 else None)
+                    r = member_root(rhs) if rhs is not None else None
+                    if r is not None and r["q"] == mr:
+                        sites.append((f, w))
+            why = "written from `%s` but read into `%s`, and the former is not a copy of the latter" % (mw.split("::")[-1], mr.split("::")[-1])
+            ok = False
+            if sites:
+                # in each root: calls after the copy (or after the call that makes it) must not update other serialised members
+                late = set()
+                others = W - {mw}
+                for rm in roots:
+                    g = F.funcs.get(rm)
+                    if g is None or not g.cfg.ok:
+                        continue
+                    anchors = [w for f, w in sites if f.m == rm]
+                    for c in X.calls(g):
+                        if any(t in {f.m for f, w in sites} or (t in cg.reachable([t], follow) and {f.m for f, w in sites} & cg.reachable([t], follow)) for t in cg.targets(c)):
+                            anchors.append(c)
+                    for a in anchors:
+                        for x in X.calls(g):
+                            if x is a or not g.cfg.can_reach(a, x):
+                                continue
+                            for t in cg.targets(x):
+                                if t not in reach:
+                                    continue
+                                for m2 in cg.reachable([t], follow):
+                                    f2 = F.funcs.get(m2)
+                                    if f2 is not None and f2.body is not None:
+                                        late |= (fields_written(f2) & others)
+                # members that are themselves copies taken at the same place are coherent with it
+                late = {y for y in late if not any(member_root(tgt) is not None and member_root(tgt)["q"] == y for f, w in sites for w2, tgt in lvalue_writes(f))}
+                ok = not late
+                why = ("written from `%s`, a copy of `%s` taken on the update path; " % (mw.split("::")[-1], mr.split("::")[-1])) + (
+                    "nothing else the writer serialises is updated after the copy" if ok else
+                    "but %s, serialised live, are updated AFTER the copy in the same step" % sorted(y.split("::")[-1] for y in late))
+            rep.add("C03-R12", "%s|%s" % (cq, k), gw.loc(cw), "%s: key %s is %s" % (cq, k, why), ok,
+                    detail="a run resumed from this state skips the update of the repeated step: what that update had added to the "
+                           "copied members (a kernel, its weight) is lost while the counters already include it", func=gw.q)
+    if n < 3:
+        raise AnalysisBroken("C03-R12: only %d keys that are written from and read into members through keyed helpers (the OPES state expected)" % n)
+
+
 def run(F, rep, tier):
+    r12(F, rep)
     r1(F, rep)
     r2(F, rep)
     r3(F, rep)
